@@ -55,6 +55,21 @@ type Stream struct {
 	DelayUs []int `json:"delay_us,omitempty"`
 	// ReadBuf: buffer sizes of the Read calls on the receiving side (tape).
 	ReadBuf []int `json:"read_buf,omitempty"`
+	// ReadVia: how the application on the receiving side consumes the
+	// connection the library returned (only where that side is the library's):
+	// "" | read: Read calls with the ReadBuf sizes; copy: io.Copy(dst, conn);
+	// copybuf: io.CopyBuffer with a ViaBuf-sized buffer; writeto: conn's own
+	// io.WriterTo if the returned value offers one, else io.Copy; readall:
+	// io.ReadAll; bufio: Read calls on a bufio.Reader of ViaBuf bytes;
+	// bufio-writeto: io.Copy(dst, bufio.NewReaderSize(conn, ViaBuf)).
+	ReadVia string `json:"read_via,omitempty"`
+	// WriteVia: how the sending application hands the data over (only where
+	// that side is the library's): "" | write: Write calls; copy: io.Copy(conn,
+	// src) with a source that yields the chunks; readfrom: conn's own
+	// io.ReaderFrom if offered, else io.Copy; bufio: a bufio.Writer of ViaBuf
+	// bytes, flushed after the chunks whose index is odd and at the end.
+	WriteVia string `json:"write_via,omitempty"`
+	ViaBuf   int    `json:"via_buf,omitempty"`
 }
 
 // Server is the scripted server model of arm "ls".
@@ -84,10 +99,27 @@ type Client struct {
 	DelayUs []int `json:"delay_us,omitempty"`
 }
 
-// Plan is one run of the telnet engine.
-type Plan struct {
+// CloseSpec is how one side ends its connection.
+type CloseSpec struct {
+	// N: number of Close calls (0 and 1: one; at most 3). Two is the usual
+	// "explicit Close plus deferred Close".
+	N int `json:"n,omitempty"`
+	// GapUs: pause before each repeated Close (0: back to back).
+	GapUs int `json:"gap_us,omitempty"`
+	// Unblock: before the first Close a read deadline in the past takes the
+	// side's reader out of Read, so that no goroutine is inside Read when Close
+	// is called. Otherwise the side that closes first does so while its reader
+	// goroutine is blocked in Read.
+	Unblock bool `json:"unblock,omitempty"`
+}
+
+// Session is one login + transfer + close. Session 0 of a run is made of the
+// plan's top-level fields (the JSON of single-session plans did not change
+// when runs with several sessions were added); sessions 1.. are Plan.More.
+type Session struct {
 	// Arm: "ll" library dialler <-> library listener, "ls" library dialler <->
-	// scripted server, "cl" scripted client <-> library listener.
+	// scripted server (single-session runs only), "cl" scripted client <->
+	// library listener.
 	Arm  string `json:"arm"`
 	Call Bin    `json:"call"`
 	Pass Bin    `json:"pass"`
@@ -102,9 +134,12 @@ type Plan struct {
 	CtxMs     int  `json:"ctx_ms,omitempty"`
 	Param     bool `json:"param,omitempty"`
 
-	DialDelayUs   int `json:"dial_delay_us,omitempty"`
-	AcceptDelayUs int `json:"accept_delay_us,omitempty"`
-	ConnectUs     int `json:"connect_us,omitempty"`
+	// After: 0: the session's clock starts with the run; n > 0: it starts when
+	// session n-1 (which must have a lower index) has been closed on both
+	// sides. DialDelayUs: pause on that clock before the dial.
+	After       int `json:"after,omitempty"`
+	DialDelayUs int `json:"dial_delay_us,omitempty"`
+	ConnectUs   int `json:"connect_us,omitempty"`
 
 	Link pipe.Plan `json:"link"`
 
@@ -115,10 +150,34 @@ type Plan struct {
 	// together with the login lines).
 	Quiet   bool `json:"quiet,omitempty"`
 	QuietUs int  `json:"quiet_us,omitempty"`
-	// CloseFirst: "client" or "server" closes first after the transfer; the
-	// other side reads until EOF.
+	// HoldUs: how long the session stays open after its transfer is complete.
+	HoldUs int `json:"hold_us,omitempty"`
+	// CloseFirst: "client" or "server" closes first after the transfer and the
+	// other side reads until EOF, then closes; "both": both sides close without
+	// waiting for the other's EOF.
 	CloseFirst string `json:"close_first,omitempty"`
+	// CliClose, SrvClose: how the dialling / the accepting side closes.
+	CliClose CloseSpec `json:"cli_close,omitzero"`
+	SrvClose CloseSpec `json:"srv_close,omitzero"`
+
+	Client Client `json:"client"`
+}
+
+// Plan is one run of the telnet engine.
+type Plan struct {
+	Session // session 0 (flattened into the plan's JSON object)
+
+	// AcceptDelayUs: pause before the server's first Accept; AcceptGapUs: pause
+	// before each further Accept of an accept loop (tape).
+	AcceptDelayUs int   `json:"accept_delay_us,omitempty"`
+	AcceptGapUs   []int `json:"accept_gap_us,omitempty"`
+	// Acceptors: number of goroutines that run the accept loop "for { c :=
+	// Accept(); go serve(c) }" on the one listener (0 and 1: one; at most 3).
+	Acceptors int `json:"acceptors,omitempty"`
 
 	Server Server `json:"server"`
-	Client Client `json:"client"`
+
+	// More: further sessions through the same listener (arms ll and cl), in
+	// index order 1..; at most 7 are used.
+	More []Session `json:"more,omitempty"`
 }
